@@ -1,76 +1,61 @@
 (* Props/C09.v — statements only.  Lazy loading is invisible (model: Model/Attr.v over the loader scripts
-   regenerated from /repo into Gen/LoaderScripts.v). *)
+   regenerated from /repo into Gen/LoaderScripts.v).  After the repairs 706f0ce (setfn runs the loader) and
+   9478875 (nsf.init loads the public table first) the statements hold at full strength: there is no side
+   condition on the order of inits any more and no `_refuted` theorem. *)
 From Coq Require Import String List Bool NArith.
 From PT Require Import Py AttrScript LoaderScripts Attr AttrReach C09Proofs.
 Import ListNotations.
 Open Scope string_scope.
 
-(* Every history made of public reads (through any representative element / isotope / ion), hasattr probes,
-   imports of any submodule, calculator calls and explicit init(elements) calls - all except a first-touch
-   xsf.init_spectral_lines(elements) - serves, at every observation, what the canonical order serves
-   (reads: the same value or the same AttributeError; hasattr: the same answer; calculators: the same result;
-   imports and inits: no exception). *)
+(* Over the whole alphabet - public reads through any representative element / isotope / ion, hasattr probes,
+   imports of any submodule, calculator calls, EVERY explicit init(elements) (xsf.init_spectral_lines included),
+   creation of a private table, every init on it at any time (before or after the public first touch), reads of
+   it - every observation of the public table is what the canonical order serves (reads: the same value or the
+   same AttributeError; hasattr: the same answer; calculators: the same result; imports and inits of the public
+   table: no exception). *)
+Theorem C09_histories_canonical :
+  forall h, forallb ev_in09 h = true -> all_expected09 h (run init_state h) = true.
+Proof. exact histories_canonical. Qed.
+Print Assumptions C09_histories_canonical.
+
+(* in particular no read returns a placeholder or raises AttributeError for data the canonical order serves *)
+Theorem C09_reads_canonical :
+  forall h i a n o, forallb ev_in09 h = true ->
+    nth_error h i = Some (Read Pub a n) -> nth_error (run init_state h) i = Some o -> o = OSame.
+Proof. exact reads_canonical. Qed.
+Print Assumptions C09_reads_canonical.
+
+(* the property's own quantifier (events on the public table only), spelled out syntactically *)
 Theorem C09_public_histories_canonical :
   forall h, public_lazy h -> all_expected09 h (run init_state h) = true.
 Proof. exact public_histories_canonical. Qed.
 Print Assumptions C09_public_histories_canonical.
 
-(* in particular no read returns a placeholder or raises AttributeError for data the canonical order serves *)
 Theorem C09_public_reads_canonical :
   forall h i a n o, public_lazy h ->
     nth_error h i = Some (Read Pub a n) -> nth_error (run init_state h) i = Some o -> o = OSame.
 Proof. exact public_reads_canonical. Qed.
 Print Assumptions C09_public_reads_canonical.
 
-(* The same over the whole alphabet - additionally one private table, every init on it and reads of it, and
-   init_spectral_lines(elements) - provided no init listed in public_unsafe (= [xsf.init_spectral_lines]) /
-   private_unsafe (= [nsf.init; covalent_radius.init; crystal_structure.init; xsf.init_spectral_lines]) is
-   issued while one of its group's attributes is still a pending delayed-load property. *)
-Theorem C09_histories_canonical_partial :
-  forall h, forallb ev_in09 h = true -> safe_run09 init_state h ->
-    all_expected09 h (run init_state h) = true.
-Proof. exact histories_canonical_partial. Qed.
-Print Assumptions C09_histories_canonical_partial.
+(* no side condition is left: every operation of the alphabet is admitted in every state *)
+Theorem C09_no_side_condition : forall t o, safe09 t o = true.
+Proof. exact safe09_true. Qed.
+Print Assumptions C09_no_side_condition.
 
-(* the full-strength statement (every init(elements) admitted) is false in the faithful model *)
-Theorem C09_direct_init_refuted :
-  exists h, forallb (fun e => match e with Init k Pub => str_in k init_keys | _ => public_event e end) h = true
-            /\ all_expected09 h (run init_state h) = false.
-Proof. exact direct_init_refuted. Qed.
-Print Assumptions C09_direct_init_refuted.
-
-Theorem C09_direct_init_witness :
+(* the shortest histories that broke the public table before the repairs now serve the canonical values *)
+Theorem C09_former_witnesses_canonical :
   run init_state [Init "xsf.init_spectral_lines" Pub; Read Pub E1 "K_alpha_units"; Read Pub E0 "K_beta1_units";
-                  Read Pub E1 "K_alpha"]
-  = [OOk; OErr AttrErr; OErr AttrErr; OSame].
-Proof. exact direct_init_witness. Qed.
-Print Assumptions C09_direct_init_witness.
-
-(* init(private) before the first public touch: each of the four listed loaders breaks a public read *)
-Theorem C09_private_first_refuted :
-  forall k, In k private_unsafe ->
-  exists a n, forallb ev_in09 (with_p1 [Init k P1; Read Pub a n]) = true
-              /\ all_expected09 (with_p1 [Init k P1; Read Pub a n])
-                                (run init_state (with_p1 [Init k P1; Read Pub a n])) = false.
-Proof. exact private_first_refuted. Qed.
-Print Assumptions C09_private_first_refuted.
-
-Theorem C09_private_first_witnesses :
-  run init_state (with_p1 [Init "nsf.init" P1; Read Pub E1 "neutron"]) = [OOk; OOk; OOk; ODiff]
-  /\ run init_state (with_p1 [Init "covalent_radius.init" P1; Read Pub E1 "covalent_radius"]) = [OOk; OOk; OOk; ODiff]
-  /\ run init_state (with_p1 [Init "crystal_structure.init" P1; Read Pub E1 "crystal_structure"]) = [OOk; OOk; OOk; OErr AttrErr]
-  /\ run init_state (with_p1 [Init "xsf.init_spectral_lines" P1; Read Pub E1 "K_alpha"]) = [OOk; OOk; OOk; OErr AttrErr].
-Proof. exact private_first_witnesses. Qed.
-Print Assumptions C09_private_first_witnesses.
-
-(* every other init of a private table is admitted at any time *)
-Theorem C09_private_safe_keys :
-  forall k, In k init_keys -> ~ In k private_unsafe -> forall t, safe09 t (LInit k P1) = true.
-Proof. exact private_safe_keys. Qed.
-Print Assumptions C09_private_safe_keys.
+                  Read Pub E1 "K_alpha"] = [OOk; OSame; OSame; OSame]
+  /\ run init_state (with_p1 [Init "nsf.init" P1; Read Pub E1 "neutron"; Import "fasta"]) = [OOk; OOk; OOk; OSame; OOk]
+  /\ run init_state (with_p1 [Init "covalent_radius.init" P1; Read Pub E1 "covalent_radius"]) = [OOk; OOk; OOk; OSame]
+  /\ run init_state (with_p1 [Init "crystal_structure.init" P1; Read Pub E1 "crystal_structure"]) = [OOk; OOk; OOk; OSame]
+  /\ run init_state (with_p1 [Init "xsf.init_spectral_lines" P1; Read Pub E1 "K_alpha"; Read Pub E1 "K_alpha_units"])
+     = [OOk; OOk; OOk; OSame; OSame].
+Proof. exact former_witnesses_canonical. Qed.
+Print Assumptions C09_former_witnesses_canonical.
 
 (* the reachable abstract states, per property group (existing tables, base group, group), are closed under
-   every admitted action of the alphabet, contain the initial state, and there are 3+8+8+9+8+10+8+8 of them *)
+   every action of the alphabet, contain the initial state, and there are 3+8+8+7+8+10+8+8 = 60 of them *)
 Theorem C09_reachable_closed :
   forall g t a, In g all_groups -> InvG09 g t -> In a (acts09 g) ->
     allowed safe09 g t a = true -> InvG09 g (pnext g t a).
@@ -82,7 +67,7 @@ Proof. exact reachable_init. Qed.
 Print Assumptions C09_reachable_init.
 
 Theorem C09_reachable_counts :
-  map (fun g => length (R09 g)) all_groups = [3; 8; 8; 9; 8; 10; 8; 8]%nat.
+  map (fun g => length (R09 g)) all_groups = [3; 8; 8; 7; 8; 10; 8; 8]%nat.
 Proof. exact reachable_counts. Qed.
 Print Assumptions C09_reachable_counts.
 
